@@ -6,6 +6,8 @@ RepeatableIterator.__init__/__iter__/__next__.
 """
 from __future__ import annotations
 
+import os
+
 import z3
 
 from ..script import *  # noqa
@@ -294,18 +296,178 @@ def v_repeatable(p):
   p.verify('RepeatableIterator.__iter__', eng, body_iter)
 
 
+# ---------------------------------------------------------------------------
+# buffered_shuffle: the output is a permutation of the input (every item exactly once)
+#
+# The function never inspects the items, so it is verified on the stream of distinct ids 0, 1, 2, ... (parametricity);
+# for an arbitrary id q a ghost witness w tracks where q is in the buffer (-1: not there) and em counts its emissions.
+
+class BufCell(ArrayCell):
+  """The buffer list: z3 Array of ids + length."""
+
+  def iterate(self, ctx, ref):
+    view = ctx.fresh('bufview', z3.SeqSort(I))
+    ctx.assume(z3.Length(view) == to_z3(self.n))
+    arr = self.arr
+    spec = IterSpec(seq=view, codec=INT)
+    spec.item_fn = lambda q_: z3.Select(arr, q_)
+    return spec
+
+
+def v_buffered_shuffle(p):
+  ex = p.extract(F, 'buffered_shuffle')
+  src = z3.Const('source_ids', z3.SeqSort(I))
+  N = z3.Length(src)
+  Bz = z3.Int('buffer_size')
+  q = z3.Int('q')
+  A = z3.ArraySort(I, I)
+
+  class IsliceV(Val):
+    def __init__(self, it, n):
+      self.it, self.n = it, n
+
+  class RngV(Val):
+    def method(self, ctx, name, args, kwargs):
+      if name == 'shuffle':
+        # T-NP: RandomState.shuffle permutes the list in place
+        ref = args[0]
+        c = ref.cell(ctx)
+        m = to_z3(c.n)
+        new = ctx.fresh('shuffled', A)
+        j, k = z3.Ints('j!s k!s')
+        old = c.arr
+        perm = ctx.fresh('perm', A)       # new[j] = old[perm[j]], perm a bijection of [0, m)
+        ctx.assume(z3.ForAll([j], z3.Implies(z3.And(0 <= j, j < m), z3.And(0 <= perm[j], perm[j] < m, new[j] == old[perm[j]])),
+                             patterns=[new[j]]))
+        ctx.assume(z3.ForAll([j, k], z3.Implies(z3.And(0 <= j, j < m, 0 <= k, k < m, perm[j] == perm[k]), j == k),
+                             patterns=[z3.MultiPattern(perm[j], perm[k])]))
+        inv_ = ctx.fresh('perm_inv', A)   # a bijection has an inverse
+        ctx.assume(z3.ForAll([j], z3.Implies(z3.And(0 <= j, j < m), z3.And(0 <= inv_[j], inv_[j] < m, perm[inv_[j]] == j)),
+                             patterns=[inv_[j]]))
+        ctx.tags['perm_inv'] = inv_
+        # ghost: where the arbitrary item q sits after the shuffle (items 0..m-1 were taken, item j sat in slot j)
+        ctx.ghost['w'] = z3.If(z3.And(0 <= q, q < m), inv_[q], z3.IntVal(-1))
+        nc = c.clone()
+        nc.arr = new
+        ctx.set_cell(ref.addr, nc)
+        return None
+      if name == 'randint':
+        hi = to_z3(args[0])
+        ctx.oblige('randint.range', hi >= 1, kind='definedness', detail='ValueError: randint(0)')
+        r = ctx.fresh('randint')
+        ctx.assume(z3.And(0 <= r, r < hi))
+        return r
+      raise Unsupported(f'rng.{name}')
+
+  def b_list(ctx, v):
+    if isinstance(v, IsliceV):
+      c = v.it.cell(ctx)
+      pos = to_z3(c.pos)
+      m = z3.If(N - pos < to_z3(v.n), N - pos, to_z3(v.n))
+      ctx.oblige('islice.stop', to_z3(v.n) >= 0, kind='definedness', detail='ValueError: islice stop must be >= 0')
+      arr = ctx.fresh('taken', A)
+      j = z3.Int('j!t')
+      ctx.assume(z3.ForAll([j], z3.Implies(z3.And(0 <= j, j < m), arr[j] == src[pos + j]), patterns=[arr[j]]))
+      nc = c.clone()
+      nc.pos = pos + m
+      ctx.set_cell(v.it.addr, nc)
+      return ctx.alloc(BufCell(arr, m, label='buf'))
+    raise Unsupported('list(...)')
+  eng = Engine({'itertools': Module('itertools', {'islice': Handler(lambda c, it, n: IsliceV(it, n), 'itertools.islice')}),
+                'list': Handler(b_list, 'list')})
+  eng.sources = [F]
+
+  def buf_facts(arr, n, consumed):
+    j, k = z3.Ints('j!b k!b')
+    return z3.And(
+        z3.ForAll([j], z3.Implies(z3.And(0 <= j, j < n), z3.And(0 <= arr[j], arr[j] < consumed))),
+        z3.ForAll([j, k], z3.Implies(z3.And(0 <= j, j < n, 0 <= k, k < n, arr[j] == arr[k]), j == k)))
+
+  def witness(arr, n, w):
+    j = z3.Int('j!w')
+    return z3.And(w >= -1, w < n, z3.Implies(w >= 0, arr[w] == q),
+                  z3.Implies(w == -1, z3.ForAll([j], z3.Implies(z3.And(0 <= j, j < n), arr[j] != q))))
+
+  mlen = z3.If(N < Bz, N, Bz)      # buffer length: min(buffer_size, number of items)
+
+  def inv_main(s):
+    g = s.ctx.ghost
+    c = s.raw('buf').cell(s.ctx)
+    itc = s.raw('it').cell(s.ctx)
+    pos = to_z3(itc.pos)
+    return dict(
+        pos=z3.And(mlen <= pos, pos <= N, to_z3(c.n) == mlen),
+        count=g['count'] == pos - mlen,
+        buf=buf_facts(c.arr, mlen, pos),
+        wit=witness(c.arr, mlen, g['w']),
+        em=z3.And(g['em'] == z3.If(z3.And(0 <= q, q < pos, g['w'] == -1), 1, 0), g['valid']))
+
+  def ghost_step(s):
+    # where q is after the body, read off the buffer itself: only slots 0 and `swap` can have changed
+    g = s.ctx.ghost
+    swap = to_z3(s['swap'])
+    arr = s.raw('buf').cell(s.ctx).arr
+    w0 = g['w']       # not modified by the body: still the head value
+    g['w'] = z3.If(arr[0] == q, 0, z3.If(arr[swap] == q, swap, z3.If(z3.Or(w0 == 0, w0 == swap), -1, w0)))
+
+  def inv_drain(s):
+    g = s.ctx.ghost
+    k = to_z3(s.it)
+    c = s.raw('buf').cell(s.ctx)
+    n = to_z3(c.n)
+    return dict(pos=z3.And(0 <= k, k <= n),
+                count=g['count'] == g['count0'] + k,
+                em=z3.And(g['em'] == g['em0'] + z3.If(z3.And(g['w'] >= 0, g['w'] < k), 1, 0), g['valid']))
+  def after_main(s):
+    g = s.ctx.ghost
+    g['count0'], g['em0'] = g['count'], g['em']
+  loops = {0: Loop(inv=inv_main, ghost_step=ghost_step, ghost=['w', 'em', 'count', 'valid'], expect=r'^it$',
+                   mutates=('buf', 'it'), after=after_main),
+           1: Loop(inv=inv_drain, ghost=['em', 'count', 'valid'], expect=r'^buf$')}
+
+  def body(ctx):
+    ctx.model_vars.update(q=q, buffer_size=Bz, n_items=N)
+    kk = z3.Int('k!src')
+    ctx.assume(z3.ForAll([kk], z3.Implies(z3.And(0 <= kk, kk < N), src[kk] == kk), patterns=[src[kk]]))
+    ctx.assume(Bz >= 1)
+    g = ctx.ghost
+    g.update(w=z3.IntVal(-1), em=z3.IntVal(0), count=z3.IntVal(0), valid=z3.BoolVal(True),
+             em0=z3.IntVal(0), count0=z3.IntVal(0))
+    state = {'phase': 0}
+
+    def on_yield(c, v):
+      gh = c.ghost
+      v = to_z3(v)
+      gh['valid'] = z3.And(gh['valid'], 0 <= v, v < N)
+      gh['em'] = gh['em'] + z3.If(v == q, 1, 0)
+      gh['count'] = gh['count'] + 1
+    ctx.on_yield = on_yield
+    orig_after = None
+    kind, r = eng.run_function(ctx, ex.funcv(loops=loops), [SeqV(src, INT), Bz, RngV()])
+    ctx.oblige('bshuf.noraise', kind == 'return')
+    if kind != 'return':
+      return
+    ctx.oblige('bshuf.once', z3.Implies(z3.And(0 <= q, q < N), g['em'] == 1),
+               detail='every input item is emitted exactly once (arbitrary item q of the id stream 0..N-1)')
+    ctx.oblige('bshuf.count', z3.And(g['count'] == N, g['valid']),
+               detail='exactly N items are emitted and each is an input item: with bshuf.once the output is a permutation of the input')
+  p.verify('buffered_shuffle', eng, body)
+
+
 def build(p):
   D = 'native/C15.py'
   p.native('RepeatableIterator', D, 'rep')
   v_repeatable(p)
   p.native('padded_batch_client_datasets', D, 'pbcd')
   v_padded_batch_client_datasets(p)
+  p.native('buffered_shuffle', D, 'bshuf')
+  v_buffered_shuffle(p)
   p.native_checks = [
       dict(name='buffered_shuffle', driver=D, payload={'mode': 'sweep', 'fn': 'bshuf'},
            bound='stream lengths 0..11, buffer sizes 1..14, 3 seeds: output is a permutation of the '
                  'input and is reproducible for a fixed seed',
-           why_bounded='multiset invariant of the swap-with-random-slot loop is not yet under contract '
-                       '(needs a COUNT theory with list-update lemmas); bounded stand-in, not counted as proved'),
+           why_bounded='cross-check on the real code of the permutation proof (bshuf.once / bshuf.count, now under contract) '
+                       'and of "reproducible for a fixed seed" (a statement about numpy RandomState)'),
       dict(name='buffered_shuffle_batch_client_datasets', driver=D,
            payload={'mode': 'sweep', 'fn': 'bsbcd'},
            bound='7 client-size lists x batch sizes {1,2,3,5} x buffer sizes {1,2,4,50}: every example '
@@ -313,6 +475,9 @@ def build(p):
            why_bounded='depends on buffered_shuffle; bounded stand-in, not counted as proved'),
   ]
   p.not_covered.append('"in a non-trivial order" (a statement about the RNG)')
+  p.trust('buffered_shuffle is verified on the stream of distinct ids 0, 1, 2, ...: it never inspects its items, so the result '
+          'transfers to any item stream (parametricity); T-NP: RandomState.shuffle permutes the list in place (a bijection, which '
+          'has an inverse), randint(n) is in [0, n); itertools.islice(it, n) takes the next min(n, remaining) items')
   p.trust('FLAT(datasets, k): ghost concatenation of the first k datasets (recursive definition as two axioms)',
           'TABLE contracts of slice_examples / attach_mask / pad_examples / num_examples are the ones proved in C03; '
           'concat_examples: rows concatenated in list order (dict-level proof: see C15 concat section)')
